@@ -136,9 +136,11 @@ def run(chk):
                 for tgt in "cs":
                     if chk.quick and sn not in ("12", "13") and rng.random() < 0.6:
                         continue
-                    cases.append({"scen": SCENS[sn], "name": "%s/%s/%s/at%d/%s" % (sn, mclass, conc, at, tgt), "pumps": pumps, "target": tgt,
-                                  "class": conc, "seed": rng.randrange(1 << 30), "count": 24 if conc in ("auth-malformed", "cbc-padding") else 10,
-                                  "_m": mclass})
+                    # thorough: four independently seeded instances of every (scenario, state, class, role) edge
+                    for rep in range(1 if chk.quick else 4):
+                        cases.append({"scen": SCENS[sn], "name": "%s/%s/%s/at%d/%s%s" % (sn, mclass, conc, at, tgt, "#%d" % rep if rep else ""),
+                                      "pumps": pumps, "target": tgt, "class": conc, "seed": rng.randrange(1 << 30),
+                                      "count": 24 if conc in ("auth-malformed", "cbc-padding") else 10, "_m": mclass})
     # floods: queue / memory bounds
     for sn in ("12", "13"):
         for conc in ("future-epoch", "forged-protected", "hsfrag", "random-typed"):
